@@ -616,52 +616,54 @@ func (c *Ctx) numFinite(r *Report) {
 		return
 	}
 	n := 0
-	var blocks []*ssa.BasicBlock
-	for f := range c.reachFrom([]*ssa.Function{pr.TokToLit}) {
-		if fnPkgPath(f) == pkgRoot {
-			blocks = append(blocks, f.Blocks...)
-		}
+	// path-based over the token→literal function with its helpers, predicates and table-driven attempts read
+	// in place: wherever a leaf constructor receives the result of strconv.ParseFloat, the path has
+	// established that this very value is neither NaN nor infinite
+	paths, complete := c.enumPathsOpt(pr.TokToLit, 20000, c.inlBool())
+	if !complete {
+		r.bad(rule, "paths", c.pos(pr.TokToLit.Pos()), "too many paths")
+		return
 	}
-	sort.Slice(blocks, func(i, j int) bool {
-		if blocks[i].Parent() != blocks[j].Parent() {
-			return fnName(blocks[i].Parent()) < fnName(blocks[j].Parent())
-		}
-		return blocks[i].Index < blocks[j].Index
-	})
-	for _, b := range blocks {
-		for _, in := range b.Instrs {
-			call, ok := in.(*ssa.Call)
-			if !ok || calleeFullName(call) != "strconv.ParseFloat" {
+	seen := map[string]bool{}
+	for _, p := range paths {
+		for _, pc := range p.Calls {
+			callee := pc.Call.Call.StaticCallee()
+			if callee == nil || fnPkgPath(callee) != pkgExpr || len(pc.Args) == 0 {
 				continue
 			}
-			// where does result #0 flow into a constructor call?
-			for _, ref := range *call.Referrers() {
-				ex, ok := ref.(*ssa.Extract)
-				if !ok || ex.Index != 0 {
-					continue
+			fk := ""
+			for _, a := range pc.Args {
+				if strings.HasPrefix(a, "strconv.ParseFloat(") && strings.HasSuffix(a, "#0") {
+					fk = a
 				}
-				for _, use := range c.transitiveUses(ex) {
-					uc, ok := use.(*ssa.Call)
-					if !ok || uc.Call.StaticCallee() == nil || fnPkgPath(uc.Call.StaticCallee()) != pkgExpr {
-						continue
-					}
-					n++
-					finite := false
-					for _, a := range c.atomsAt(uc) {
-						s := a.String()
-						if a.Kind == "call" && !a.Pos && (a.Subj == "math.IsNaN" || a.Subj == "math.IsInf") {
-							finite = finite || strings.Contains(s, "IsInf") && c.hasFiniteNaN(c.atomsAt(uc))
-						}
-					}
-					key := fnName(pr.TokToLit) + "|ParseFloat→" + fnName(uc.Call.StaticCallee())
-					if finite {
-						r.ok(rule, key, c.instrPos(uc), "dominated by !IsNaN && !IsInf")
-					} else if c.serialiserRejectsNonFinite() {
-						r.ok(rule, key, c.instrPos(uc), "the serialiser's number case rejects NaN/Inf")
-					} else {
-						r.badW(rule, key, c.instrPos(uc), "a float parsed with strconv.ParseFloat (which accepts NaN, Inf, Infinity) becomes a number literal without a finiteness test, and the inline serialiser prints it with %v: the value is rendered as a bare SQL identifier", "`a:NaN` renders `\"a\" = NaN`")
-					}
+			}
+			if fk == "" {
+				continue
+			}
+			nan, inf := false, false
+			for _, a := range p.Atoms {
+				if a.Kind == "call" && !a.Pos && a.Subj == "math.IsNaN" && a.Val == fk {
+					nan = true
 				}
+				if a.Kind == "call" && !a.Pos && a.Subj == "math.IsInf" && strings.HasPrefix(a.Val, fk+",") {
+					inf = true
+				}
+			}
+			key := fnName(pr.TokToLit) + "|ParseFloat→" + fnName(callee)
+			if !nan || !inf {
+				key += "|unguarded"
+			}
+			if seen[key] {
+				continue
+			}
+			seen[key] = true
+			n++
+			if nan && inf {
+				r.ok(rule, key, c.instrPos(pc.Call), "on this path the parsed value is neither NaN nor infinite")
+			} else if c.serialiserRejectsNonFinite() {
+				r.ok(rule, key, c.instrPos(pc.Call), "the serialiser's number case rejects NaN/Inf")
+			} else {
+				r.badW(rule, key, c.instrPos(pc.Call), "a float parsed with strconv.ParseFloat (which accepts NaN, Inf, Infinity) becomes a number literal without a finiteness test, and the inline serialiser prints it with %v: the value is rendered as a bare SQL identifier", "`a:NaN` renders `\"a\" = NaN`")
 			}
 		}
 	}
